@@ -159,7 +159,44 @@ def _strchr(p, c):
         i += 1
 
 
-LIBC = {"strlen": _strlen, "memcpy": _memcpy, "memset": _memset, "strncasecmp": _strncasecmp, "strchr": _strchr}
+def _snprintf(dst, n, fmt, *args):
+    """the integer / character conversions the library uses (%d %i %u %c with flags, width and l / ll / z modifiers)"""
+    import re
+    f = cstr_value(fmt)
+    pyf = re.sub(r"%([-0 +]*\d*)(?:hh|h|ll|l|z|j)?([diuc])", lambda m: "%" + m.group(1) + ("c" if m.group(2) == "c" else "d"), f)
+    vals = tuple(chr(a & 0xff) if spec == "c" else a for spec, a in zip(re.findall(r"%[-0 +]*\d*(?:hh|h|ll|l|z|j)?([diuc])", f), args))
+    if any(not isinstance(v, (int, str)) for v in vals) or len(vals) != len(args):
+        raise NotConst("snprintf with `%s`" % f)
+    out = (pyf % vals).encode("latin-1", "replace")
+    if n > 0:
+        for i, b in enumerate(out[:n - 1]):
+            dst.put(b, i)
+        dst.put(0, min(len(out), n - 1))
+    return len(out)
+
+
+def _memcmp(a, b, n):
+    """text against text; or two records: equal iff every stored leaf is (a missing leaf counts as 0; only equality is decided)"""
+    if isinstance(a, CPtr) and isinstance(b, CPtr):
+        for i in range(n):
+            if a.get(i) != b.get(i):
+                return a.get(i) - b.get(i)
+        return 0
+    if isinstance(a, Ptr) and isinstance(b, Ptr):
+        def leaves(p):
+            rec = p.env.get(p.d)
+            if not isinstance(rec, dict):
+                return {"": rec or 0}
+            pre = p.prefix + "." if p.prefix else ""
+            return {k[len(pre):]: v for k, v in rec.items() if k.startswith(pre) and v != 0}
+        la, lb = leaves(a), leaves(b)
+        if any(not isinstance(v, int) for v in list(la.values()) + list(lb.values())):
+            raise NotConst("memcmp of records holding non-integers")
+        return 0 if la == lb else 1
+    raise NotConst("memcmp of unlike objects")
+
+
+LIBC = {"memcmp": _memcmp, "snprintf": _snprintf, "strlen": _strlen, "memcpy": _memcpy, "memset": _memset, "strncasecmp": _strncasecmp, "strchr": _strchr}
 
 
 def _worker(ys):
